@@ -332,12 +332,34 @@ theorem stepLoc_id (T : Tables) (l : Loc) (id : Nat) (text : Bytes) : (stepLoc T
   · rfl
   · split <;> rfl
 
-theorem stepLoc_line1 (T : Tables) (l : Loc) (id : Nat) (text : Bytes) : (stepLoc T l id text).1.line = l.line := by
+def countNL : Bytes → Nat
+  | [] => 0
+  | b :: r => (if b == 0x0A then 1 else 0) + countNL r
+
+theorem skipLoc_line : ∀ (b : Bytes) (line col : Nat), (skipLoc b line col).1 = line + countNL b
+  | [], line, col => by simp [skipLoc, countNL]
+  | b :: r, line, col => by
+    simp only [skipLoc, countNL]
+    split
+    · rw [skipLoc_line r]; omega
+    · rw [skipLoc_line r]; omega
+
+/-- the line `Lex` is on when it looks at the next token: the stored line plus
+the newlines of the previous token, over which the location is advanced first -/
+def effLine (l : Loc) : Nat := if l.incCol then l.line + countNL l.tok else l.line
+
+theorem stepLoc_line1 (T : Tables) (l : Loc) (id : Nat) (text : Bytes) :
+    (stepLoc T l id text).1.line = effLine l := by
+  have hp : (if l.incCol then skipLoc l.tok l.line l.col else (l.line, l.col)).1 = effLine l := by
+    unfold effLine
+    split
+    · exact skipLoc_line _ _ _
+    · rfl
   unfold stepLoc
   simp only
   split
-  · rfl
-  · split <;> rfl
+  · exact hp
+  · split <;> exact hp
 
 theorem lexRawFuel_zero (T : Tables) (src : Bytes) (l : Loc) : lexRawFuel T 0 src l = ([], src) := by
   simp [lexRawFuel]
@@ -452,37 +474,33 @@ theorem lexRawFuel_rest (T : Tables) (hS : skipId T ≠ invalidId T) (hC : comme
 
 /-! ## line numbers -/
 
-def countNL : Bytes → Nat
-  | [] => 0
-  | b :: r => (if b == 0x0A then 1 else 0) + countNL r
-
-/-- by how much a token advances `loc.Line` -/
-def lineAdvance (T : Tables) (t : Tok) : Nat :=
-  if t.id == skipId T then countNL t.text else if t.id == commentId T then 1 else 0
-
-theorem skipLoc_line : ∀ (b : Bytes) (line col : Nat), (skipLoc b line col).1 = line + countNL b
-  | [], line, col => by simp [skipLoc, countNL]
-  | b :: r, line, col => by
-    simp only [skipLoc, countNL]
-    split
-    · rw [skipLoc_line r]; omega
-    · rw [skipLoc_line r]; omega
+/-- by how much a token advances the line: by the newlines in its text (white
+space, comments — a comment ends with its newline, if it has one — and, since
+the repairs of the line bookkeeping, string literals) -/
+def lineAdvance (_T : Tables) (t : Tok) : Nat := countNL t.text
 
 theorem stepLoc_line2 (T : Tables) (l : Loc) (id : Nat) (text : Bytes) :
-    (stepLoc T l id text).2.line = l.line + lineAdvance T (stepLoc T l id text).1 := by
+    effLine (stepLoc T l id text).2 = effLine l + lineAdvance T (stepLoc T l id text).1 := by
+  have hp : (if l.incCol then skipLoc l.tok l.line l.col else (l.line, l.col)).1 = effLine l := by
+    unfold effLine
+    split
+    · exact skipLoc_line _ _ _
+    · rfl
   unfold lineAdvance
-  rw [stepLoc_id, stepLoc_text]
+  rw [stepLoc_text]
   unfold stepLoc
   simp only
   split
-  · exact skipLoc_line _ _ _
-  · split <;> rfl
+  · simp only [effLine, Bool.false_eq_true, if_false, skipLoc_line, hp]
+  · split
+    · simp only [effLine, Bool.false_eq_true, if_false, skipLoc_line, hp]
+    · simp [effLine, hp]
 
 /-- **line numbers**: the line of every token is the start line plus the
-number of `\n` bytes in the SKIP tokens before it plus the number of COMMENT
-tokens before it. -/
+number of `\n` bytes in the non-comment tokens before it (white space and
+string literals) plus the number of COMMENT tokens before it. -/
 theorem lexRawFuel_line (T : Tables) : ∀ (f : Nat) (src : Bytes) (l : Loc) (pre : List Tok) (t : Tok) (post : List Tok),
-    (lexRawFuel T f src l).1 = pre ++ t :: post → t.line = l.line + (pre.map (lineAdvance T)).sum := by
+    (lexRawFuel T f src l).1 = pre ++ t :: post → t.line = effLine l + (pre.map (lineAdvance T)).sum := by
   intro f
   induction f with
   | zero => intro src l pre t post h; simp [lexRawFuel_zero] at h
@@ -539,5 +557,23 @@ theorem lexAllRaw_line (src : Bytes) (pre : List Tok) (t : Tok) (post : List Tok
 /-- non-vacuity: `in x\n#\n$` is IN, ID, then INVALID on line 3 (a comment and a newline before it) -/
 example : (lexAll [0x69, 0x6E, 0x20, 0x78, 0x0A, 0x23, 0x0A, 0x24]).map (fun t => (t.id, t.line, t.col)) =
     [(57354, 1, 1), (57378, 1, 4), (57348, 3, 1)] := by decide
+
+theorem countNL_append : ∀ (a b : Bytes), countNL (a ++ b) = countNL a + countNL b
+  | [], b => by simp [countNL]
+  | x :: a, b => by simp only [List.cons_append, countNL, countNL_append a b]; omega
+
+theorem sum_lineAdvance (T : Tables) : ∀ (pre : List Tok),
+    (pre.map (lineAdvance T)).sum = countNL (pre.map Tok.text).flatten
+  | [] => by simp [countNL]
+  | t :: pre => by
+    simp only [List.map_cons, List.sum_cons, List.flatten_cons, countNL_append, sum_lineAdvance T pre, lineAdvance]
+
+/-- **the reported line is the real line**: the line of every token is 1 + the
+number of newline bytes of the source before it (the texts of the tokens before
+it are, by `lexAllRaw_reconstructs`, exactly the source up to the token). -/
+theorem lexAllRaw_real_line (src : Bytes) (pre : List Tok) (t : Tok) (post : List Tok)
+    (h : (lexAllRaw src).1 = pre ++ t :: post) : t.line = 1 + countNL (pre.map Tok.text).flatten := by
+  rw [← sum_lineAdvance genTables pre]
+  exact lexAllRaw_line src pre t post h
 
 end Martian.Tokenizer
